@@ -10,6 +10,8 @@ import (
 //
 //	vh-reward replay-split   -in behaviours [-payer N]
 //	vh-reward trace-split    -out trace.ndjson -n WORLDS -steps K
+//	vh-reward replay-weight  -in behaviours
+//	vh-reward trace-weight   -out trace.ndjson -mode main|manybins|confirm -tier quick|thorough [-f F -ceil C]
 func main() {
 	if len(os.Args) < 2 {
 		fmt.Fprintln(os.Stderr, "usage: vh-reward <cmd> ...")
@@ -22,6 +24,10 @@ func main() {
 	n := fs.Int("n", 10, "number of worlds / traces")
 	steps := fs.Int("steps", 12, "steps per trace")
 	payer := fs.Int64("payer", 1000, "initial balance of the fee payer (PayerInit of the specification)")
+	mode := fs.String("mode", "main", "trace-weight: main | manybins | confirm")
+	tier := fs.String("tier", "quick", "quick | thorough")
+	ff := fs.Int64("f", 2, "confirm: ServicerStakeFloorMultiplier")
+	fc := fs.Int64("ceil", 2, "confirm: ServicerStakeWeightCeiling")
 	_ = fs.Parse(os.Args[2:])
 	switch cmd {
 	case "probe":
@@ -30,6 +36,10 @@ func main() {
 		replaySplit(*in, *payer)
 	case "trace-split":
 		traceSplit(*out, *n, *steps)
+	case "replay-weight":
+		replayWeight(*in)
+	case "trace-weight":
+		traceWeight(*out, *mode, *tier, *ff, *fc)
 	default:
 		fmt.Fprintln(os.Stderr, "unknown command", cmd)
 		os.Exit(2)
